@@ -512,6 +512,46 @@ def history_case(ob, other, word, PandoraMachine, CC, pandora, a_, b_):
         ob(False, 'history-other-pipeline-checked-before-same-steps-same-order', word, 'raised %r' % (e,))
 
 
+def history_run_case(ob, other, word, PandoraMachine, CC, pandora, a_, b_):
+    """one machine object: check AND RUN pipeline `other`, then check and run pipeline `word`: same effects as on a fresh machine,
+    and no product of the earlier run survives (right dataset empty when `word` has no validation step)"""
+    global CUR
+    import xarray as xr
+    try:
+        L, R = Img("L", "L", (a_, b_)), Img("R", "R", None)
+        m = PandoraMachine()
+        cfga = make_cfg_named(other, word)
+        gota = CC.check_pipeline_section(copy.deepcopy(cfga), L, R, m)
+        CUR = Ctx()
+        pandora.run(m, L, R, gota)
+        cfgb = make_cfg(word)
+        got = CC.check_pipeline_section(copy.deepcopy(cfgb), L, R, m)
+        CUR = Ctx()
+        l, r = pandora.run(m, L, R, got)
+        nsc = 2 if 9 in word else 1
+        act = _actual_log(CUR.log, nsc)
+        ob(list(got["pipeline"]) == list(cfgb["pipeline"]) and act == expected_log(cfgb, nsc), 'history-other-pipeline-run-before-run-as-configured', word,
+           lambda: 'after running %s on the same machine, running %s executes %s' % ([STEPS[i] for i in other], list(cfgb["pipeline"]), act[:12]))
+        if 8 not in word:
+            ob(isinstance(r, xr.Dataset) and len(r.data_vars) == 0, 'history-other-pipeline-run-before-right-dataset-empty-without-validation', word,
+               'after running %s on the same machine, running %s (no validation step) returns a right dataset with %s' % (
+                   [STEPS[i] for i in other], list(cfgb["pipeline"]), repr(r)[:80]))
+        # and the products are those of a fresh machine
+        m2 = PandoraMachine()
+        got2 = CC.check_pipeline_section(copy.deepcopy(cfgb), L, R, m2)
+        CUR = Ctx()
+        l2, r2 = pandora.run(m2, L, R, got2)
+        if isinstance(l, Disp) and isinstance(l2, Disp):
+            pairs = list(zip(l.terms(), l2.terms()))
+            if isinstance(r, Disp) and isinstance(r2, Disp):
+                pairs += list(zip(r.terms(), r2.terms()))
+            v = valid_eq(pairs)
+            ob(v == 'unsat' and isinstance(r, Disp) == isinstance(r2, Disp), 'history-other-pipeline-run-before-same-products-as-fresh-machine', word,
+               'after running %s first, the products of %s differ from those of a fresh machine (%s)' % ([STEPS[i] for i in other], list(cfgb["pipeline"]), v))
+    except Exception as e:     # noqa
+        ob(False, 'history-other-pipeline-run-before-run-as-configured', word, 'raised %r' % (e,))
+
+
 def expected_log(cfg, num_scales):
     """reference semantics of the statement: each configured step once per processed scale, in order, left then right"""
     keys = list(cfg["pipeline"])
@@ -600,6 +640,21 @@ def run_words(words, histories=True, mirror=True, ms_variants=((2, 2),), suffix_
                 res['evaluations'] += 1
                 res['_variant'] = {'history': [STEPS[i] for i in other]}
                 history_case(ob, other, word, PandoraMachine, CC, pandora, a_, b_)
+            # histories in which another pipeline was RUN before on the same machine: the same word plus a validation step (so that
+            # right products exist), and the previous accepted word
+            ran = []
+            if 8 not in word and doc_accepts(list(word) + [8]):
+                ran.append(list(word) + [8])
+            elif 8 in word:
+                w3 = [i for i in word if i != 8]
+                if doc_accepts(w3):
+                    ran.append(w3)
+            if others:
+                ran.append(others[0])
+            for other in ran[:2]:
+                res['evaluations'] += 1
+                res['_variant'] = {'history_run': [STEPS[i] for i in other]}
+                history_run_case(ob, other, word, PandoraMachine, CC, pandora, a_, b_)
             prev_acc = list(word)
         for sty in suffix_styles:
             for fill in fillings:
